@@ -371,6 +371,39 @@ pub fn run(run: &mut Run, rng: &mut Rng) {
     }
     run.count("single_mutation_sweep");
 
+    // 2b. RSA end-entity keys: SPKI algorithm rsaEncryption / id-RSASSA-PSS without and with
+    //     parameters x modulus size x every certificate signature algorithm the profile accepts
+    {
+        let sig_algs: Vec<(KeyKind, SigAlg)> = vec![
+            (KeyKind::Rsa(2048), SigAlg::RsaPkcs1(Md::Sha256)),
+            (KeyKind::Rsa(2048), SigAlg::RsaPkcs1(Md::Sha384)),
+            (KeyKind::Rsa(2048), SigAlg::RsaPkcs1(Md::Sha512)),
+            (KeyKind::Rsa(2048), SigAlg::RsaPss(Md::Sha256, PssParams::Full { mgf: Md::Sha256 })),
+            (KeyKind::Rsa(2048), SigAlg::RsaPss(Md::Sha384, PssParams::Full { mgf: Md::Sha384 })),
+            (KeyKind::Rsa(2048), SigAlg::RsaPss(Md::Sha512, PssParams::Full { mgf: Md::Sha512 })),
+            (KeyKind::P256, SigAlg::Ecdsa(Md::Sha256)),
+            (KeyKind::P384, SigAlg::Ecdsa(Md::Sha384)),
+            (KeyKind::P521, SigAlg::Ecdsa(Md::Sha512)),
+            (KeyKind::Ed25519, SigAlg::Ed25519),
+        ];
+        let mut rsa_kinds = vec![];
+        for bits in [1024u32, 2047, 2048, 3072] {
+            rsa_kinds.push(KeyKind::Rsa(bits));
+            rsa_kinds.push(KeyKind::RsaPss(bits));
+            rsa_kinds.push(KeyKind::RsaPssParams(bits));
+        }
+        for ee in &rsa_kinds {
+            for (k, (issuer, alg)) in sig_algs.iter().enumerate() {
+                let tst = if k % 2 == 0 { None } else { Some(1_660_000_000 + k as i64) };
+                let mut p = fresh_plan(&mut w, *ee, *issuer, tst.unwrap_or(now), rng);
+                p.spec.sig_alg = *alg;
+                p.label = format!("rsa-spki-{}", ee.tag());
+                prof_case(run, &mut w, &p, tst, 0);
+            }
+        }
+        run.count("rsa_spki_label_x_size_x_sigalg_sweep");
+    }
+
     // 3. time stamp versus clock: an expired certificate with a time stamp inside its window,
     //    and a currently valid one with a time stamp outside
     for ee in EE_KINDS {
